@@ -50,7 +50,7 @@ def allocateConsumerRewards (credit tax : Nat) (vals : List CVal) (height eligBl
 
 /-- the crediting rule of the transfer middleware: a successful transfer to the consumer rewards
     pool whose memo names an existing consumer is credited to that consumer, in full -/
-def credit (old : Nat) (amount : Nat) : Nat := old + amount * one
+def credit (old : Nat) (amount : Nat) : Nat := old + one * amount   -- (`one *`, not `* one`: keeps kernel unfolding shallow)
 
 
 abbrev Credits := List ((CId × String) × Nat)
